@@ -9,6 +9,7 @@ import (
 	"github.com/theory/sqljson/path/exec"
 
 	"verif/internal/h"
+	"verif/internal/model"
 )
 
 func init() {
@@ -252,6 +253,32 @@ func checkC08(c *h.Ctx, ec *ExecCase) {
 				}
 				c.Violate("soft.items-before-failure", f, "verbose Query fails with "+vq.ErrText()+"; "+detail, scs)
 			}
+		}
+	}
+	// 4b. a non-suppressible error that the evaluation must raise is raised -
+	// with and without WithSilent (both runs losing it alike would agree with
+	// each other): the reference evaluator says where one is due
+	if vq != nil && (vq.Class == h.OK || vq.Class == h.Soft) {
+		vec := *ec
+		vec.Silent = false
+		res := model.Eval(ec.P.AST, ec.DocValue(), vec.ModelOpts(model.Dev{}))
+		allHard := res.Unspec == "" && !res.Capped && len(res.Outcomes) > 0
+		for _, mo := range res.Outcomes {
+			if mo.Class != model.Hard {
+				allHard = false
+			}
+		}
+		if allHard {
+			// (not where a recorded deviation explains it: is unknown swallowing a hard error)
+			dev := model.Eval(ec.P.AST, ec.DocValue(), vec.ModelOpts(model.Dev{IsUnknownSwallowsHard: true, SubscriptSkipsNull: true, UnaryExistsShortcut: true}))
+			explained := dev.Unspec != "" || dev.Capped || matchExpect(vq, expectations(dev, false))
+			if explained {
+				c.Skip("hard.raised", "explained-by-a-known-finding")
+			} else {
+				c.Violate("hard.raised", h.F("mode", mode, "got", vq.Class), fmt.Sprintf("Query returned %s; the evaluation meets a non-suppressible error (%s) in every order of evaluation", vq.Summary(), res.Outcomes[0].Msg), cs)
+			}
+		} else if res.Unspec == "" {
+			c.Held("hard.raised")
 		}
 	}
 	if vq != nil && c.WantSample("pair:"+vq.Class) {
